@@ -1,8 +1,9 @@
 #!/bin/bash
-# usage: tools_try_seed.sh <patch.diff> <check id> [tier]   -- applies the patch to /repo, runs the check, reverts
+# usage: tools_try_seed.sh <patch.diff> <check id> [tier] [lines]  -- applies the patch to /repo, runs the check, reverts
 set -u
 patch=$1; id=$2; tier=${3:-quick}
-git -C /repo apply "$patch" || { echo "PATCH DOES NOT APPLY"; exit 9; }
+if [ -n "$(git -C /repo status --porcelain --untracked-files=no)" ]; then echo "REPO NOT CLEAN"; exit 8; fi
+git -C /repo apply "$patch" 2>/dev/null || git -C /repo apply --3way "$patch" 2>/dev/null || { echo "PATCH DOES NOT APPLY"; git -C /repo reset -q --hard HEAD; exit 9; }
 /venv/bin/python -B /verif/run_check.py "$id" --tier "$tier" 2>&1 | grep -v "^(smt\|^$" | grep -E "VIOLATION|KNOWN|INCONCLUSIVE|\[$tier\]" | cut -c1-400 | head -${4:-12}
 echo "exit=${PIPESTATUS[0]}"
-git -C /repo checkout -- .
+git -C /repo reset -q --hard HEAD
